@@ -457,6 +457,29 @@ impl<T> DataReaderEntity<T> {
             return Ok(AddChangeResult::NotAdded);
         }
 
+        // With KEEP_LAST the newest sample replaces the oldest one of its instance. This is
+        // decided before the resource limits are tested so that a full history never causes a rejection
+        let num_alive_samples_of_instance = self
+            .sample_list
+            .iter()
+            .filter(|cc| {
+                cc.instance_handle == sample.instance_handle && cc.kind == ChangeKind::Alive
+            })
+            .count() as u32;
+
+        if let HistoryQosPolicyKind::KeepLast(depth) = self.qos.history.kind {
+            if depth == num_alive_samples_of_instance {
+                let index_sample_to_remove = self
+                    .sample_list
+                    .iter()
+                    .position(|cc| {
+                        cc.instance_handle == sample.instance_handle && cc.kind == ChangeKind::Alive
+                    })
+                    .expect("Samples must exist");
+                self.sample_list.remove(index_sample_to_remove);
+            }
+        }
+
         let is_max_samples_limit_reached = {
             let total_samples = self
                 .sample_list
@@ -505,27 +528,6 @@ impl<T> DataReaderEntity<T> {
                 SampleRejectedStatusKind::RejectedBySamplesPerInstanceLimit,
             ));
         }
-        let num_alive_samples_of_instance = self
-            .sample_list
-            .iter()
-            .filter(|cc| {
-                cc.instance_handle == sample.instance_handle && cc.kind == ChangeKind::Alive
-            })
-            .count() as u32;
-
-        if let HistoryQosPolicyKind::KeepLast(depth) = self.qos.history.kind {
-            if depth == num_alive_samples_of_instance {
-                let index_sample_to_remove = self
-                    .sample_list
-                    .iter()
-                    .position(|cc| {
-                        cc.instance_handle == sample.instance_handle && cc.kind == ChangeKind::Alive
-                    })
-                    .expect("Samples must exist");
-                self.sample_list.remove(index_sample_to_remove);
-            }
-        }
-
         match sample.kind {
             ChangeKind::Alive | ChangeKind::AliveFiltered => {
                 match self
